@@ -137,6 +137,10 @@ func buildFile(fc fileCase) (f *ach.File, panicked any) {
 		r := rng.New(fc.Seed ^ 0x5bd1e995)
 		mutateFields(r, f, r.Range(1, 2))
 		return f, nil
+	case "gencodes": // a generator file with returns whose addenda reason codes carry a leading letter
+		f := genValidFile(fc)
+		prefixCodes(rng.New(fc.Seed^0x9e3779b9), f)
+		return f, nil
 	case "gendates": // a generator file whose date / time fields are RFC 3339 timestamps, as an API user may set them
 		f := genValidFile(fc)
 		r := rng.New(fc.Seed ^ 0x2545f491)
@@ -594,7 +598,7 @@ func kindClass(kind string) string {
 	switch kind {
 	case "reader", "gentext":
 		return "reader"
-	case "api", "api-adv", "api-padded", "gen", "genmut", "gendates", "newbatch":
+	case "api", "api-adv", "api-padded", "gen", "genmut", "gendates", "gencodes", "newbatch":
 		return "api"
 	}
 	return kind
